@@ -351,6 +351,208 @@ fn fixed_shapes(rep: &mut Report, j: &Judge, static_mode: bool) {
     rep.count("passes", w.passes);
 }
 
+/// A burst of loads while the reloader is busy, followed at once by notified
+/// edits of the assets loaded last: the registrations of those assets are
+/// still queued when the notifications arrive.
+fn burst_shape(rep: &mut Report, j: &Judge, static_mode: bool, n: usize) {
+    let mut w = World::new(&WorldCfg { caches: vec![CacheKind::Hot], static_mode, content_mode: 0 });
+    w.tag = json!({"shape": "burst", "loads": n});
+    w.seed_file(0, "slow.s", "n0", "file slow.f a spin 40000000");
+    w.seed_file(0, "slow.f", "a", "f0");
+    for i in 0..n {
+        w.seed_file(0, &format!("b.l{i}"), "a", &format!("b{i}#0"));
+    }
+    w.apply(&Step::Load { c: 0, ty: Ty::Node(0), id: "slow.s".into() }, rep, j);
+    // keep the reloader busy (enhanced mode reloads at once; in hot_reload()
+    // mode the registrations are simply queued until the pass)
+    w.apply(&Step::Write { c: 0, id: "slow.f".into(), ext: "a".into(), content: "f1".into() }, rep, j);
+    w.apply(&Step::NotifyAsync { c: 0, entries: vec![(false, "slow.f".into(), "a".into())] }, rep, j);
+    for i in 0..n {
+        w.apply(&Step::Load { c: 0, ty: LEAF_A, id: format!("b.l{i}") }, rep, j);
+    }
+    let mut entries = vec![];
+    for i in [n - 1, n - 2, n / 2, 0] {
+        let id = format!("b.l{i}");
+        w.apply(&Step::Write { c: 0, id: id.clone(), ext: "a".into(), content: format!("b{i}#1") }, rep, j);
+        entries.push((false, id, "a".to_string()));
+    }
+    w.apply(&Step::NotifyAsync { c: 0, entries }, rep, j);
+    w.apply(&Step::Pass { c: 0 }, rep, j);
+    rep.count("burst_shapes", 1);
+    rep.count("passes", w.passes);
+}
+
+/// Several threads poll `reloaded_global` of one asset at the same moment
+/// after exactly one rewrite: exactly one of them is told `true`.
+fn concurrent_pollers(rep: &mut Report, rounds: usize) {
+    use crate::mem::{Hot, Mem};
+    use assets_manager::AssetCache;
+    use std::sync::atomic::{AtomicBool, AtomicUsize, Ordering::SeqCst};
+    let mem = Mem::new("c06p", Hot::Yes);
+    mem.write("p", "a", b"p0");
+    let cache = AssetCache::with_source(mem.clone());
+    let h = cache.load::<Leaf<1, 0, true>>("p").expect("load p");
+    let pollers = if cfg!(miri) { 2 } else { 4 };
+    for r in 0..rounds {
+        rep.eval();
+        let before = crate::scen::rid_num(h.last_reload_id());
+        let _ = h.reloaded_global();
+        mem.write("p", "a", format!("p{}", r + 1).as_bytes());
+        mem.notify_file("p", "a");
+        let sent = mem.sent();
+        if !crate::util::wait_until(if cfg!(miri) { 600_000 } else { 120_000 }, || cache.verif_events_handled() == Some(sent)) {
+            rep.inconclusive("concurrent_pollers: barrier watchdog");
+            return;
+        }
+        cache.hot_reload();
+        let after = crate::scen::rid_num(h.last_reload_id());
+        let go = AtomicBool::new(false);
+        let ready = AtomicUsize::new(0);
+        let trues = AtomicUsize::new(0);
+        std::thread::scope(|s| {
+            for _ in 0..pollers {
+                s.spawn(|| {
+                    ready.fetch_add(1, SeqCst);
+                    while !go.load(SeqCst) {
+                        std::hint::spin_loop();
+                        #[cfg(miri)]
+                        std::thread::yield_now();
+                    }
+                    if h.reloaded_global() {
+                        trues.fetch_add(1, SeqCst);
+                    }
+                });
+            }
+            while ready.load(SeqCst) < pollers {
+                std::thread::yield_now();
+            }
+            go.store(true, SeqCst);
+        });
+        let t = trues.into_inner();
+        if after - before != 1 || t != 1 {
+            rep.violation(
+                "reloaded-global-concurrent",
+                "C06/reloaded-global-reported-not-exactly-once",
+                json!({"rewrites": after - before, "pollers": pollers, "told_true": t}),
+                json!({"kind": "concurrent pollers", "round": r}),
+            );
+            break;
+        }
+        rep.count("concurrent_poll_rounds", 1);
+        rep.nontrivial(mix(0xc06, r as u64));
+    }
+}
+
+/// End to end on the real filesystem source and its OS watcher: edits on disk,
+/// a sentinel file as logical barrier (inotify and both channels are FIFO),
+/// then every cached asset must equal a fresh load by a second, plain cache.
+fn real_filesystem(rep: &mut Report, rng: &mut Rng, rounds: usize) {
+    use assets_manager::source::FileSystem;
+    use assets_manager::AssetCache;
+    for round in 0..rounds {
+        rep.eval();
+        let dir = crate::util::scratch_dir("c05fs");
+        let w = |rel: &str, c: &str| {
+            let p = dir.join(rel);
+            std::fs::create_dir_all(p.parent().unwrap()).unwrap();
+            std::fs::write(p, c).unwrap();
+        };
+        w("l/y0.a", "y0#0");
+        w("l/y1.a", "y1#0");
+        w("l/y2.a", "y2#0");
+        w("g/x1.n0", "load L10t l.y1 file l.y2 a");
+        w("g/x0.n0", "load N0 g.x1 load L10t l.y0 load D:a l");
+        w("g/x2.n0", "iter D:a l owned N0 g.x1");
+        w("s/probe.a", "s0");
+        let cache = match AssetCache::new(&dir) {
+            Ok(c) => c,
+            Err(e) => {
+                rep.inconclusive(&format!("cannot open the scratch directory: {e}"));
+                return;
+            }
+        };
+        if !cache.as_any_cache().is_hot_reloaded() {
+            rep.inconclusive("the filesystem watcher did not start");
+            return;
+        }
+        let keys: Vec<(Ty, &str)> = vec![(Ty::Node(0), "g.x0"), (Ty::Node(0), "g.x1"), (Ty::Node(0), "g.x2"), (Ty::Dir(Elem::LeafA), "l"),
+            (LEAF_A, "l.y0"), (LEAF_A, "l.y1"), (LEAF_A, "l.y2")];
+        for (ty, id) in &keys {
+            let _ = op_load(cache.as_any_cache(), *ty, id);
+        }
+        let probe = cache.load::<Leaf<1, 0, true>>("s.probe").expect("probe");
+        let mut steps = vec![];
+        let nsteps = rng.range(2, 6);
+        let mut extra = 0;
+        for step in 0..nsteps {
+            let what = match rng.below(6) {
+                0 | 1 => {
+                    let k = rng.below(3);
+                    w(&format!("l/y{k}.a"), &format!("y{k}#{}", step + 1));
+                    format!("modify l/y{k}.a")
+                }
+                2 => {
+                    extra += 1;
+                    w(&format!("l/extra{extra}.a"), "e");
+                    format!("create l/extra{extra}.a")
+                }
+                3 if extra > 0 => {
+                    let _ = std::fs::remove_file(dir.join(format!("l/extra{extra}.a")));
+                    extra -= 1;
+                    format!("delete l/extra{}.a", extra + 1)
+                }
+                4 if extra > 0 => {
+                    let _ = std::fs::rename(dir.join(format!("l/extra{extra}.a")), dir.join(format!("l/moved{step}.a")));
+                    extra -= 1;
+                    format!("rename l/extra{}.a -> l/moved{step}.a", extra + 1)
+                }
+                _ => {
+                    w("g/x1.n0", &format!("load L10t l.y1 file l.y2 a spin {}", step + 1));
+                    "rewrite g/x1.n0".to_string()
+                }
+            };
+            steps.push(what);
+            // logical barrier: the sentinel's own reload can only be observed after
+            // every earlier notification was delivered and handled
+            let mark = format!("s{}-{}", round, step + 1);
+            w("s/probe.a", &mark);
+            let want = content_hash(mark.as_bytes());
+            let reached = crate::util::wait_until(60_000, || {
+                cache.hot_reload();
+                matches!(&probe.read().v, V::Leaf { hash, .. } if *hash == want)
+            });
+            if !reached {
+                rep.inconclusive("real filesystem: the sentinel edit was not picked up within 60 s");
+                let _ = std::fs::remove_dir_all(&dir);
+                return;
+            }
+            // compare with a fresh, plain cache over the same directory
+            let fresh = AssetCache::without_hot_reloading(FileSystem::new(&dir).expect("fresh source"));
+            for (ty, id) in &keys {
+                let now = op_cached(cache.as_any_cache(), *ty, id);
+                let want = op_load(fresh.as_any_cache(), *ty, id).ok();
+                if let (Some(now), Some(want)) = (&now, &want) {
+                    if now != want {
+                        rep.violation(
+                            "stale-after-pass",
+                            "C05/real-filesystem:stale-after-pass",
+                            json!({"key": format!("{} {id:?}", ty.tag()), "cached": format!("{now:?}"), "fresh_load": format!("{want:?}")}),
+                            json!({"kind": "real filesystem", "round": round, "edits": steps}),
+                        );
+                    }
+                }
+            }
+            rep.count("real_fs_steps", 1);
+        }
+        rep.nontrivial(fnv_str(&format!("{steps:?}")));
+        if round == 0 {
+            rep.sample(json!({"kind": "real filesystem history", "edits": steps}));
+        }
+        drop(cache);
+        let _ = std::fs::remove_dir_all(&dir);
+    }
+}
+
 fn run_with(args: &Args, judge: Judge, silent: bool, rule: &str) -> Report {
     let mut rep = Report::new(args);
     rep.rule = rule.into();
@@ -360,6 +562,17 @@ fn run_with(args: &Args, judge: Judge, silent: bool, rule: &str) -> Report {
     fixed_shapes(&mut rep, &judge, false);
     if !miri {
         fixed_shapes(&mut rep, &judge, true);
+        for k in 0..args.n(3, 12) {
+            burst_shape(&mut rep, &judge, true, 150 + 25 * k);
+        }
+        burst_shape(&mut rep, &judge, false, 120);
+    }
+    if !silent && !miri && judge.values {
+        let mut r = rng.sub(0xf5);
+        real_filesystem(&mut rep, &mut r, args.n(6, 60));
+    }
+    if silent {
+        concurrent_pollers(&mut rep, if miri { 3 } else { args.n(1_500, 20_000) });
     }
     let nhist = if miri { args.n(2, 6) } else { args.n(250, 4_000) };
     let mut multi_total = 0;
